@@ -36,6 +36,10 @@ def gen(tier, seed, index):
     forced = [['many-rules', 'jpre-shape', 'shared-factor', 'start-arity', 'no-edges-rule', 'edge-twice', 'edgeless-internal', 'plain', 'unit-base'][(index // 4) % 9]]
     spec = G.gen_spec(rng, cls, forced, allow_inf=False, wdomain='log' if index % 3 == 0 else 'real', grid=index % 3 == 0,
                       max_scc=5 if index % 2 else 3, max_nts=5 if index % 2 else 4, max_dom=2 if index % 2 else 3)
+    if index % 9 == 5:
+        # hand-shaped: a dense linearly recursive component (several back edges into one nonterminal)
+        spec = G.gen_dense_linear_scc_spec(rng, 'log' if index % 2 else 'real')
+        return spec, dict(cls='linear', forced=['dense-linear-scc'])
     return spec, dict(cls=cls, forced=forced)
 
 
